@@ -378,7 +378,9 @@ cfg_async! {
 
     impl Module for AsyncFn {
         fn reset(&mut self) {
-            current().reset_join_handles();
+            // Nothing to do: the handles of tasks that the shutdown killed
+            // were forgotten together with the runtime, and a task that
+            // had finished (or panicked) before is still to be joined.
         }
 
          fn at_sim_start(&mut self, _: usize) {
